@@ -49,7 +49,7 @@ def eff(c):
 
 PARAMS = {
     "digit": [8, 16, 32, 64, 128], "mulldiv": [0, 1], "proj": [0, 1], "mix": [0, 1], "rdbl": [0, 1],
-    "fxp": [0, 1, 2, 3, 4], "fxpw": [1, 2, 3, 4, 5, 8, 9], "unk": [0, 1, 2, 3, 4, 5], "unkw": [1, 2, 3, 4, 5],
+    "fxp": [0, 1, 2, 3, 4], "fxpw": [1, 2, 3, 4, 8, 9], "unk": [0, 1, 2, 3, 4, 5], "unkw": [1, 2, 3, 4, 5],
     "twin": [0, 1, 2, 3],
 }
 def cfg_valid(c):
@@ -68,7 +68,7 @@ def random_cfg(rng):
 
 def pairwise(rng, must=()):
     """greedy pairwise covering array over PARAMS subject to cfg_valid"""
-    keys = list(PARAMS)
+    keys = [k for k in PARAMS if k != "mulldiv"]
     need = set()
     for a, b in itertools.combinations(keys, 2):
         for va in PARAMS[a]:
@@ -182,7 +182,7 @@ def generate_corpus(ctx, rng):
     if ctx.quick:
         pq = [(1, -1, rq()), (0, -1, 0), (0, -1, -1), (0, -1, -2), (0, -1, 118), (0, rq(), rq())]
     else:
-        pq = [(1, -1, rq()), (1, -1, -1), (1, -1, -2), (1, rq(), rq()), (0, -1, 0), (0, -1, -3), (0, -1, 118), (0, -1, 59),
+        pq = [(1, -1, rq()), (1, rq(), rq()), (0, -1, -1), (0, -1, -2), (0, -1, 0), (0, -1, -3), (0, -1, 118), (0, -1, 59),
               (0, 0, -1), (0, -2, -3), (0, 118, 177), (0, -1, rq()), (0, rq(), rq())]
     codes = sorted({f * 1000000 + (p + 10) * 1000 + (q + 10) for f, p, q in pq})
     def walk(nm, tag, bases, kfrom, kto, stride, dstride):
@@ -404,26 +404,36 @@ def check_curve_tables(exe, C, cfg):
             raise common.Infra("curve tables differ: %s m/h" % n)
     return None
 
-def heavy_unk(cfg):
-    e = eff(cfg); return e["unk_eff"] in TABLE_ALGOS and e["unkw_eff"] >= 8
+def unk_share(cfg):
+    """share of the rows that call the unknown-point multiplier: it builds its whole table (2^w - 1 points, twice for
+    COMB_2T) on every call, so wide windows are sampled"""
+    e = eff(cfg)
+    if e["unk_eff"] not in TABLE_ALGOS: return 1.0
+    return min(1.0, 12.0 / ((1 << e["unkw_eff"]) * (2 if e["unk_eff"] == 4 else 1) * (1 if cfg["proj"] else 2)))
 
 def select_rows(ctx, cfg, bi, C, rng):
-    """which rows this build runs.  quick: the suite's configuration (bi = 0) runs everything, the other builds one
-    8-bit curve each (rotating), E13, and E16M3 when the digit size lets the comb/window code see its scalars.
-    thorough: everything.  Selections that build a 2^w-point table per unknown-point multiplication (w >= 8) sample
-    the rows that use it."""
+    """which rows this build runs.  The suite's configuration (bi = 0) runs everything.  The other builds run add / sub /
+    dbl / dbl_n everywhere, the multiplier rows (mul, mulbp, twin) of the 8-bit curves on one (quick) or two (thorough)
+    of the four curves, rotating with the build number, E13 always and E16M3 always (thorough) or when the digit size
+    lets the comb / window code see its scalars (quick)."""
     e = eff(cfg)
-    if ctx.quick and bi > 0:
-        one = TOY8[(bi - 1) % 4]
-        allowed = {one, "E13"} | {a for a, b in ALIAS.items() if b == one}
-        if cfg["digit"] <= 16: allowed.add("E16M3")
-    else:
-        allowed = None
+    allowed = None; mult_on = None
+    if bi > 0:
+        if ctx.quick:
+            one = TOY8[(bi - 1) % 4]
+            allowed = {one, "E13"} | {a for a, b in ALIAS.items() if b == one}
+            if cfg["digit"] <= 16: allowed.add("E16M3")
+        else:
+            two = {TOY8[bi % 4], TOY8[(bi // 4 + bi + 1) % 4]}
+            mult_on = two | {a for a, b in ALIAS.items() if b in two} | set(TOYBIG)
+    share = unk_share(cfg)
     sel = []
     for i, m in enumerate(C.meta):
         if allowed is not None and m["curve"] not in allowed: continue
-        if heavy_unk(cfg) and (m["op"] == "mul" or (m["op"] == "twinbp" and e["twin_eff"] == 1)):
-            if rng.random() > 0.05 and not (m["exc"] and rng.random() < 0.3): continue
+        mult = m["op"] in ("mul", "mulbp", "twin", "twinbp")
+        if mult_on is not None and mult and m["curve"] not in mult_on: continue
+        if share < 1.0 and (m["op"] == "mul" or (m["op"] == "twinbp" and e["twin_eff"] == 1)):
+            if rng.random() > share * (2 if m["exc"] else 1): continue
         sel.append(i)
     return sel
 
